@@ -134,6 +134,7 @@ func runCheck(prop, tier, repo, verif string, seed int, controls bool) (code int
 	reg.Count("packages_loaded", len(w.Pkgs))
 	reg.Count("library_functions_analysed", len(w.FuncList))
 	pf(a, reg)
+	runDeps(prop, a, reg)
 	if tier == "thorough" {
 		runThorough(a, reg, ri, prop, repo, verif)
 	}
@@ -260,4 +261,75 @@ func setStr(w *World, s ObjSet) string {
 	}
 	sort.Strings(xs)
 	return "{" + strings.Join(xs, ",") + "}"
+}
+
+// ---- obligations imported from the components a property's statement rests on ----
+
+// propDep: the statement of a property quantifies over the behaviour of
+// components whose own clauses are decided under another property (its anchor
+// files name them). Their obligations are imported, so that a change to such
+// a component that breaks this property is reported by this property's check
+// as well.
+type propDep struct {
+	Prop string
+	Only []string // substrings of the constructs to import (nil: all)
+	Why  string
+}
+
+var chooseFamily = []string{"mathx.Choose", "mathx.Lchoose", "mathx.init"}
+var betaFamily = []string{"mathx.Beta", "mathx.BetaInc", "mathx.betacf"}
+
+var propDeps = map[string][]propDep{
+	"C01": {{"C02", nil, "the exact P is a tail of UDist (stats/udist.go)"}, {"C08", chooseFamily, "UDist counts with mathx.Choose (mathx/choose.go)"}},
+	"C02": {{"C08", chooseFamily, "UDist counts with mathx.Choose (mathx/choose.go)"}},
+	"C03": {{"C05", []string{"NormalDist).CDF", "NormalDist).PDF", "stats.invSqrt2Pi"}, "the normal approximation evaluates StdNormal.CDF (stats/normaldist.go)"}},
+	"C04": {{"C08", betaFamily, "Student-t tails are BetaInc (mathx/beta.go)"}, {"C07", []string{"stats.InvCDF", "stats.bisectBool"}, "MeanCI inverts the t distribution with the generic InvCDF (stats/dist.go)"},
+		{"C09", []string{"stats.Mean", "stats.StdDev", "stats.Variance", "(Sample).Mean", "(Sample).StdDev", "(Sample).Variance", "(Sample).Weight", "(Sample).Sum"}, "the statistics are built from Mean/StdDev/Variance (stats/sample.go)"}},
+	"C05": {{"C08", betaFamily, "TDist.CDF is BetaInc (mathx/beta.go)"}},
+	"C06": {{"C08", append(append([]string{}, chooseFamily...), betaFamily...), "PMFs are built from Choose/Lchoose, the binomial CDF from BetaInc (mathx/choose.go, mathx/beta.go)"}},
+	"C10": {{"C09", []string{"(Sample).Bounds", "stats.Bounds", "(Sample).Copy", "(*Sample).Sort", "sampleSorter", "(Sample).Weight"}, "Quantile's ends are Bounds(); it sorts a Copy (stats/sample.go)"}},
+	"C11": {{"C06", []string{"BinomialDist"}, "the exact interval sums BinomialDist.PMF (stats/binomdist.go)"}, {"C05", []string{"NormalDist"}, "the approximate interval uses NormalDist (stats/normaldist.go)"}},
+	"C12": {{"C05", []string{"NormalDist).pdfEach", "NormalDist).cdfEach", "NormalDist).PDF", "NormalDist).CDF", "DeltaDist", "stats.invSqrt2Pi"}, "Gaussian and delta kernels (stats/normaldist.go, stats/deltadist.go)"},
+		{"C09", []string{"(Sample).Sum", "(Sample).Weight", "(Sample).StdDev", "(Sample).Variance", "(Sample).Mean", "(Sample).Bounds", "stats.Bounds"}, "the estimate is a weighted mean over the sample; bandwidths use StdDev (stats/sample.go)"},
+		{"C10", []string{"(Sample).Quantile"}, "Scott's bandwidth uses the interquartile range (stats/sample.go)"}},
+	"C17": {{"C09", []string{"vec.Linspace", "vec.Logspace"}, "vec/vec.go is an anchor of the property"}},
+	"C19": {{"C18", []string{"PostOrder", "PreOrder", "NodeMarks"}, "dominators are computed over PostOrder (graph/graphalg/order.go)"}},
+}
+
+func runDeps(prop string, a *Analysis, reg *Registry) {
+	for _, d := range propDeps[prop] {
+		pf := propFuncs[d.Prop]
+		if pf == nil {
+			continue
+		}
+		sub := NewRegistry(prop)
+		func() {
+			defer func() {
+				if rec := recover(); rec != nil {
+					sub.Undecided("analyser", "panic in imported "+d.Prop, "", fmt.Sprintf("analyser panic: %v", rec))
+				}
+			}()
+			pf(a, sub)
+		}()
+		n := 0
+		for _, o := range sub.Obs {
+			keep := len(d.Only) == 0 || o.Rule == "analyser"
+			for _, k := range d.Only {
+				if strings.Contains(o.Construct, k) {
+					keep = true
+				}
+			}
+			if !keep {
+				continue
+			}
+			o.Rule = "dep[" + d.Prop + "] " + o.Rule
+			reg.Obs = append(reg.Obs, o)
+			n++
+		}
+		reg.Count("imported_from_"+d.Prop, n)
+		reg.Notes = append(reg.Notes, fmt.Sprintf("imported %d obligations from %s: %s", n, d.Prop, d.Why))
+		if n == 0 {
+			reg.Undecided("dep["+d.Prop+"]", "import", "", "no obligation of "+d.Prop+" matched the import filter (vacuity)")
+		}
+	}
 }
